@@ -389,6 +389,15 @@ class C04(Check):
         outcome = {"jobs": 0, "violations": [], "signatures": [], "counters": {}}
         counters = outcome["counters"]
         program_id = core.mix(repr(funs)) & 0xFFFFFFFFFFFF
+        # the fault-free execution is the reference: if the runtime cannot even run the program without an injected
+        # error (for example a debug assertion of the compiler), the program says nothing about exception handling
+        reference = ctx.run({"id": "frames-reference", "main": workloads.MAIN,
+                             "files": {workloads.MAIN: render(funs, 0, "Error"), DATA: "data"}, "gc": schedules.never()})
+        outcome["jobs"] += 1
+        if core.host_failure(reference) or reference["vmexit"] != "ok":
+            counters["invalid_workload"] = 1
+            counters["invalid:" + (core.host_failure(reference) or reference["vmexit"])[:70]] = 1
+            return outcome
         for target, kind in case["targets"]:
             source = render(funs, target, kind)
             try:
